@@ -368,6 +368,26 @@ class ResponderSys:
                     owners.setdefault(
                         'S-matching' if ref.rs[rid].matching else 'S-exact',
                         []).append(rid)
+            # Which owner made which call cannot be observed (same function
+            # object, same arguments): when exactly the expected number of
+            # calls was made, take an attribution that satisfies the demanded
+            # order if there is one.
+            tags = sorted({e[0] for e in obs if isinstance(e[0], str)})
+            mand = {t: [f['rid'] for f in fired if f['shared'] and
+                        not f['optional'] and 'S-' + f['group'] == t]
+                    for t in tags}
+            if tags and all(
+                    sum(1 for e in obs if e[0] == t) == len(mand[t])
+                    for t in tags):
+                for perm in itertools.product(
+                        *[itertools.permutations(mand[t]) for t in tags]):
+                    it = {t: iter(p) for t, p in zip(tags, perm)}
+                    ids = [next(it[e[0]]) if isinstance(e[0], str) else e[0]
+                           for e in obs]
+                    if not dispatch_ref.check_order(fired, ids):
+                        for e, rid in zip(obs, ids):
+                            e[0] = rid
+                        break
             for e in obs:
                 if isinstance(e[0], str):
                     own = owners.get(e[0])
